@@ -26,6 +26,7 @@ type c14Conn struct {
 	stream []byte
 	segs   []int  // segment lengths (sum = len(stream))
 	pshAll bool   // PSH on every segment (else only on the last)
+	tail   string // after the FIN: "" = acknowledge the listener's FIN, "rst" = reset, "none" = nothing
 	frames []c14F // client frames in order
 }
 
@@ -76,6 +77,12 @@ func (cn *c14Conn) clientFrame(kind string, off int, payload []byte, srvNext uin
 	case "fin":
 		seq = cn.isn + 1 + uint32(off)
 		fl = fACK | fFIN
+	case "lastack":
+		seq = cn.isn + 2 + uint32(off)
+		fl = fACK
+	case "rst":
+		seq = cn.isn + 2 + uint32(off)
+		fl = fRST | fACK
 	}
 	return frameTCP(cn.ip, tcpOpts{sport: cn.sport, dport: cn.dport, seq: seq, ack: srvNext, flags: fl}, payload)
 }
@@ -184,9 +191,13 @@ func (r *c14Run) next(i int) {
 		if push && r.firstPSH[id] == 0 {
 			r.firstPSH[id] = r.off[id]
 		}
-	default:
+	case st-2 == nseg:
 		frame, what = cn.clientFrame("fin", r.off[id], nil, srvNext, false), "FIN"
 		r.finSent[id] = true
+	case cn.tail == "rst":
+		frame, what = cn.clientFrame("rst", r.off[id], nil, srvNext, false), "RST after the close"
+	default:
+		frame, what = cn.clientFrame("lastack", r.off[id], nil, srvNext, false), "ACK of the listener's FIN"
 	}
 	r.step[id] = st + 1
 	if p, w := r.l.inject(frame); p != "" {
@@ -203,12 +214,17 @@ func (r *c14Run) next(i int) {
 		r.fail("C14:synack", "SYN of %s was answered with %d frames, expected exactly one SYN-ACK", id, got)
 	case st >= 2 && st-2 < nseg && cn.segs[st-2] > 0 && got == 0:
 		r.fail("C14:no-ack", "%s of %s (bytes so far %d) was not acknowledged", what, id, r.recvd[id])
-	case st-2 >= nseg && got == 0:
+	case st-2 == nseg && got == 0:
 		r.fail("C14:fin-unanswered", "FIN of %s was not answered", id)
 	}
 }
 
-func (cn *c14Conn) nframes() int { return 3 + len(cn.segs) }
+func (cn *c14Conn) nframes() int {
+	if cn.tail == "none" {
+		return 3 + len(cn.segs)
+	}
+	return 4 + len(cn.segs)
+}
 
 func newC14Run(c *core.Ctx, conns []*c14Conn) *c14Run {
 	r := &c14Run{c: c, l: newCanaryLabK(canaryCfg{arpFor: allClients()}), conns: conns, srvISN: map[string]uint32{}, haveSyn: map[string]bool{}, step: map[string]int{},
@@ -374,24 +390,28 @@ func runC14(c *core.Ctx) {
 		name  string
 		conns func() []*c14Conn
 	}
-	mk := func(ipk int, sp, dp uint16, isn uint32, n int, segs []int) *c14Conn {
-		return &c14Conn{ip: clientIP(ipk), sport: sp, dport: dp, isn: isn, stream: c14Stream(dp, n), segs: segs}
+	mk := func(ipk int, sp, dp uint16, isn uint32, n int, segs []int, tail ...string) *c14Conn {
+		cn := &c14Conn{ip: clientIP(ipk), sport: sp, dport: dp, isn: isn, stream: c14Stream(dp, n), segs: segs, tail: "none"}
+		if len(tail) > 0 {
+			cn.tail = tail[0]
+		}
+		return cn
 	}
 	sets := []kset{
 		{"2 peers same ports", func() []*c14Conn {
-			return []*c14Conn{mk(6, 5000, 8081, 1<<32-2, 6, []int{3, 3}), mk(7, 5000, 8081, 10, 6, []int{3, 3})}
+			return []*c14Conn{mk(6, 5000, 8081, 1<<32-2, 6, []int{3, 3}, ""), mk(7, 5000, 8081, 10, 6, []int{3, 3})}
 		}},
 		{"1 peer 2 ports", func() []*c14Conn {
-			return []*c14Conn{mk(6, 5000, 8081, 100, 5, []int{2, 3}), mk(6, 5001, 8081, 200, 5, []int{1, 4})}
+			return []*c14Conn{mk(6, 5000, 8081, 100, 5, []int{2, 3}, "rst"), mk(6, 5001, 8081, 200, 5, []int{1, 4})}
 		}},
 		{"2 peers decoded ports", func() []*c14Conn {
-			return []*c14Conn{mk(6, 5000, 6379, 1<<31-1, 8, []int{4, 4}), mk(7, 6000, 23, 0, 4, []int{4})}
+			return []*c14Conn{mk(6, 5000, 6379, 1<<31-1, 8, []int{4, 4}), mk(7, 6000, 23, 0, 4, []int{4}, "")}
 		}},
 		{"3 peers", func() []*c14Conn {
-			return []*c14Conn{mk(6, 5000, 8081, 1, 3, []int{3}), mk(7, 5000, 8082, 2, 3, []int{3}), mk(8, 5000, 8081, 1<<32-1, 2, []int{2})}
+			return []*c14Conn{mk(6, 5000, 8081, 1, 3, []int{3}, ""), mk(7, 5000, 8082, 2, 3, []int{3}), mk(8, 5000, 8081, 1<<32-1, 2, []int{2})}
 		}},
 		{"mirror ports", func() []*c14Conn {
-			return []*c14Conn{mk(6, 8081, 5000, 7, 3, []int{3}), mk(6, 5000, 8081, 9, 3, []int{3})}
+			return []*c14Conn{mk(6, 8081, 5000, 7, 3, []int{3}, "rst"), mk(6, 5000, 8081, 9, 3, []int{3}, "")}
 		}},
 	}
 	if c.Thorough() {
